@@ -57,6 +57,14 @@ var c20Templates = []string{
 	"{% tablerow i in (1..3) cols: 2 %}{% if i == 2 %}{% continue %}{% endif %}{{ i }}{% endtablerow %}x",
 	"{% for i in (1..3) %}{{ i }}{% if i == 2 %}{% break %}{% endif %}{% endfor %}y",
 	"{% for i in (1..2) %}{% tablerow j in (1..2) %}{{ j }}{% continue %}{% endtablerow %}{% endfor %}",
+	// block bodies that are empty, or end in a trim marker, a raw block or a comment: the flush at the
+	// end of the body has no last node with a source location to blame
+	"abc{% if x %}{% endif %}def",
+	"{% for i in (1..2) %}{{ i -}}{% endfor %}z",
+	"a {% if x -%}{% endif %} b{% unless x %}{% else -%} {% endunless %}c",
+	"p{% if x %}{% raw %}r{% endraw %}{% endif %}q{% if x %}s{% comment %}c{% endcomment %}{% endif %}",
+	"t{% for i in (1..2) %}{% endfor %}u{% capture c %}{% endcapture %}v{% case x %}{% when 1 %}{% endcase %}w",
+	"{% tablerow i in (1..2) %}{% endtablerow %}{% tablerow i in (1..2) %}{{ i -}}{% endtablerow %}",
 }
 
 func c20Engine() *Engine {
